@@ -116,6 +116,17 @@ class Folder:
                                 return self.fold(kw.value, self.m.classes[owner].module)
                         raise Unfoldable(f"{self_cls}.{e.attr} has no constant default")
                     return self.fold(expr, self.m.classes[owner].module)
+                # a property whose body is one `return <expr>`: the expression, folded for the same concrete class
+                pm = self.m.find_method(self_cls, e.attr)
+                if pm is not None and not isinstance(pm.node, ast.Lambda) and any(norm(d).split(".")[-1] in ("property", "cached_property") for d in pm.node.decorator_list):
+                    pbody = [b for b in pm.node.body if not (isinstance(b, ast.Expr) and isinstance(b.value, ast.Constant))]
+                    key = ("prop", self_cls, e.attr)
+                    if len(pbody) == 1 and isinstance(pbody[0], ast.Return) and pbody[0].value is not None and key not in self._stack:
+                        self._stack.add(key)
+                        try:
+                            return self.fold(pbody[0].value, pm.module, {}, self_cls)
+                        finally:
+                            self._stack.discard(key)
                 raise Unfoldable(f"{self_cls}.{e.attr} is not a class constant")
             txt = norm(e)
             if txt.startswith("re.") and hasattr(re, e.attr) and isinstance(getattr(re, e.attr), re.RegexFlag):
